@@ -101,6 +101,11 @@ class SrcGen:
 
     def stmt(self, scope=()):
         r = self.r
+        if any(v in scope for v in ("i", "j", "q")):
+            # inside a loop body: no growth of the list the loops iterate over (nested loops over list(xs) that append to xs
+            # double it per iteration, and a play-through then takes minutes)
+            return r.choice([f"{r.choice(INTS)} = {self.iexpr(scope)}", f"{r.choice(INTS)} += {r.choice([1, 2])}",
+                             f"d['k'] = {self.iexpr(scope)}", "flag = not flag", "n = n + 1"])
         return r.choice([f"{r.choice(INTS)} = {self.iexpr(scope)}", f"{r.choice(INTS)} += {r.choice([1, 2])}",
                          f"xs.append({self.iexpr(scope)})", f"d['k'] = {self.iexpr(scope)}", "flag = not flag", "n = n + 1"])
 
